@@ -215,6 +215,17 @@ def _after_command(prog, main, ret, W):
 RESETTERS = {"clear", "setstate", "exceptions", "rdbuf", "copyfmt", "tie"}
 
 
+BASE_STREAMS = {"std::ostream", "std::basic_ostream", "std::basic_ios", "std::ios_base", "std::ios", "std::iostream",
+                "std::basic_iostream"}
+
+
+def _is_ref_or_ptr_var(fn, ref):
+    for n in fn.walk():
+        if n.get("k") == "VarDecl" and n.get("d") == ref.get("d"):
+            return "&" in (n.get("t") or "") or "*" in (n.get("t") or "")
+    return True
+
+
 def rule_cout_state_census(prog, fixture=False):
     r = RuleResult("R-C11-2", "std::cout's error state is never reset and its stream buffer is never used "
                    "directly (clear/setstate/exceptions/rdbuf/copyfmt, ostreambuf_iterator, sync_with_stdio)",
@@ -228,6 +239,22 @@ def rule_cout_state_census(prog, fixture=False):
                     r.add("%s::%s::cout.%s" % (fn.relfile(), fn.qn, callee.get("n")), fn.loc(n), False,
                           "std::cout.%s() defeats the final stream-state test (error state reset or stream "
                           "buffer exposed)" % callee.get("n"))
+                elif callee and callee.get("c") and callee.get("n") in ("clear", "copyfmt") or \
+                        (callee and callee.get("c") and callee.get("n") in ("rdbuf", "exceptions") and len(n["c"]) > 1):
+                    # a reference/pointer to the base ostream may be bound to std::cout
+                    recv = strip(callee["c"][0])
+                    while recv is not None and recv.get("k") == "UnaryOperator" and recv.get("op") == "*":
+                        recv = strip(recv["c"][0])
+                    rt = notpl((recv or {}).get("ct") or (recv or {}).get("t") or "").replace("const ", "")
+                    rt = rt.replace("&", "").replace("*", "").strip()
+                    if rt in BASE_STREAMS and recv.get("k") in ("DeclRefExpr", "MemberExpr") and \
+                            recv.get("dk") in ("ParmVar", "Field", "Var"):
+                        if recv.get("dk") == "Var" and not _is_ref_or_ptr_var(fn, recv):
+                            continue
+                        r.add("%s::%s::%s.%s" % (fn.relfile(), fn.qn, recv.get("n"), callee.get("n")), fn.loc(n), False,
+                              "%s.%s() on a reference to the base ostream, which callers bind to std::cout: the "
+                              "stream's error state is rewritten, so a failed write before this point is no "
+                              "longer visible to the final stream-state test" % (recv.get("n"), callee.get("n")))
             elif k in ("CXXConstructExpr", "CXXTemporaryObjectExpr", "CXXFunctionalCastExpr"):
                 cls = notpl(n.get("cls") or n.get("t") or "")
                 if "ostreambuf_iterator" in cls and any(_refs_cout(c) for c in n.get("c", [])):
